@@ -114,7 +114,7 @@ def build_proofs(prop, jobs=16):
     target = prop.props_file[:-2] + '.vo'
     (COQ / target).unlink(missing_ok=True)
     # Tie B: regenerate Gen/Leaves.v and Gen/Control.v from the current source (under the same lock as the build)
-    cmd = (f"flock .build.lock sh -c '/venv/bin/python ../tools/py2coq.py >/dev/null; /venv/bin/python ../tools/py2coq_ctl.py >/dev/null; "
+    cmd = (f"flock .build.lock sh -c 'for t in ../tools/py2coq*.py; do /venv/bin/python $t >/dev/null; done; "
            f"timeout 1500 make -j{jobs} {target}'")
     t0 = time.time()
     rc, out = sh(cmd, timeout=1600, cwd=COQ)
